@@ -77,6 +77,14 @@ def c12_scenarios(r, tier):
         for q2 in range(q + 1):
             ls += ["holds %s" % hx("DW/succ%d" % q2), "relations %s" % hx("DW/succ%d" % q2), "use %s" % hx("DW/succ%d" % q2)]
     out.append(("successive-generations", ls))
+    # more configured peers than requested participants: the threshold is bounded by the PARTICIPANTS (n/2 < t <= n), not by
+    # the number of peers
+    ids5 = [1, 2, 3, 4, 5]
+    ls = [cluster_line(ids5)]
+    for q, (n_, t_) in enumerate([(3, 4), (3, 5), (2, 3), (4, 5), (2, 1), (4, 2), (3, 1), (3, 0), (4, 6)]):
+        a_ = "DW/pn%d" % q
+        ls += [gen_line(ids5[q % 5], a_, t_, n_), "holds %s" % hx(a_)]
+    out.append(("threshold-vs-peers", ls))
     for f in ("commitpub:commit:0:2", "commitsig:commit:0:3"):
         out.append(("tampered-commit-reply " + f, [cluster_line(ids), gen_line(1, "DW/x6", 2, 3, f)]))
     # the same over the real transport (dirk's gRPC sender, mutual TLS, the receiver handlers behind the client-info interceptor)
@@ -127,7 +135,8 @@ def c13_scenarios(tier):
         for to in ids:
             faults += ["drop:prepare:0:%d" % to, "err:execute:0:%d" % to]
         for a, b in itertools.combinations(ids, 2):
-            for kind in ("drop", "share", "vvecalter", "vvecshort", "vveclong", "vveclongzero", "replyshare", "replyvvecshort", "replyvveclong"):
+            for kind in ("drop", "share", "vvecalter", "vvecshort", "vvecempty", "vvecone", "vveclong", "vveclongzero", "replyshare", "replyvvecshort",
+                         "replyvvecempty", "replyvveclong"):
                 faults.append("%s:contribute:%d:%d" % (kind, a, b))
         for f in faults:
             k += 1
@@ -230,6 +239,15 @@ def c16_scenarios(tier):
         lines = [cluster_line(idset_)] + [hline("hprepare", i, p, acct, 2, parts_) for i in parts_ if i in idset_] + \
                 [hline("hexecute", parts_[0], p, acct), "msglog", "parts %s" % ",".join(str(x) for x in parts_)]
         out.append(("skewed participants %s on %s" % (parts_, idset_), lines))
+    # every lower participant's contribution handled one after the other by the highest participant, the replies examined
+    # only afterwards (as the gRPC server encodes a reply after the handler has returned, while other calls are handled):
+    # each reply must still carry the share of ITS caller
+    for idset in ([1, 2, 3], [1, 2, 3, 4, 5], [5, 6, 900, 70000]):
+        k += 1
+        acct = "DW/so%d" % k
+        p = peer_name(idset, idset[0])
+        out.append(("share owners at %d" % idset[-1], [cluster_line(idset), hline("hprepare", idset[-1], p, acct, len(idset) // 2 + 1, idset),
+                                                     "shareowners %d %s" % (idset[-1], hx(acct))]))
     # share ownership for all ordered pairs asker < owner
     for idset in ([1, 2, 3], [5, 6, 900, 70000]):
         for owner in idset:
@@ -302,6 +320,13 @@ def c17_scenarios(r, tier):
                hline("hcommit", 1, p, N), hline("hcommit", 1, p, N), hline("habort", 1, p, N), hline("habort", 3, p, N), "holds %s" % hx(N)]))
     # a participant list naming an id this instance has no peer for: nobody can contribute for it, so no commit may succeed
     U = "DW/unk"
+    # an execute whose exchange with the (only) higher participant fails because that one never prepared; the commit that
+    # follows must be refused: nobody else has contributed
+    for (pa, pb_) in ((1, 2), (2, 3), (1, 3)):
+        F = "DW/lf%d%d" % (pa, pb_)
+        T.append(("failed-execute-then-commit-%d-%d" % (pa, pb_), [hline("hprepare", pa, p, F, 2, [pa, pb_]), hline("hexecute", pa, p, F), hline("hcommit", pa, p, F),
+                                                                  hline("hexecute", pa, p, F), hline("hcommit", pa, p, F), "holds %s" % hx(F),
+                                                                  hline("habort", pa, p, F), hline("hprepare", pa, p, F, 2, [pa, pb_]), hline("hcommit", pa, p, F), "holds %s" % hx(F)]))
     T.append(("unknown-participant", [hline("hprepare", i, p, U, 3, [1, 2, 3, 4]) for i in ids] + [hline("hexecute", 1, p, U), hline("hcommit", 1, p, U), hline("hcommit", 2, p, U),
                                       hline("hcommit", 3, p, U), "holds %s" % hx(U), hline("habort", 1, p, U), hline("habort", 2, p, U), hline("habort", 3, p, U)]))
     # prepares for one name arriving at the same moment: exactly one may be accepted (a wide participant list makes
@@ -419,9 +444,16 @@ def c14_scenarios(r, tier):
         pairs = []
         for j in range(npairs):
             base = 10 * (j + 1)
-            kind = r.choice(["double", "surround", "surrounded", "proposal"])
+            kind = r.choice(["double", "double-head", "double-one-root", "surround", "surrounded", "proposal"])
             if kind == "double":
                 d1, d2 = ("iatt", att9(base, base + 5, 0)), ("iatt", att9(base, base + 5, 1))
+            elif kind in ("double-head", "double-one-root"):
+                # the two votes differ in ONE root only: the head vote (beacon block root), or the source / target root
+                a1 = att9(base, base + 5, 0)
+                f_ = a1.split(",")
+                pos_ = 3 if kind == "double-head" else r.choice([5, 7])
+                f_[pos_] = (bytes([0xB7]) * 32).hex()
+                d1, d2 = ("iatt", a1), ("iatt", ",".join(f_))
             elif kind == "surround":
                 d1, d2 = ("iatt", att9(base + 1, base + 6, 0)), ("iatt", att9(base, base + 7, 1))
             elif kind == "surrounded":
